@@ -163,6 +163,31 @@ func runC15(c *Ctx) {
 		}
 	}
 
+	// ---- U19 ----------------------------------------------------------------
+	// "loading fills every field from …, the configuration file, …": the file named is read and merged on every load. A
+	// successful return of LoadFromConfigurationFile follows MergeInConfig — that the session 'already uses this file'
+	// (ConfigFileUsed only says which path was last designated) is no reason to skip it: a session on which the caller had
+	// designated the file, or a second load after the defaults were merged over the first, gets the defaults in the place
+	// of everything the file sets.
+	c.rule("U19", "every successful return of LoadFromConfigurationFile follows the reading and merging of the file (MergeInConfig): no fast path answers for the file without reading it", 1)
+	if lf := c.fnOpt(cfgPkg, "LoadFromConfigurationFile"); lf != nil {
+		c.FuncsSeen[fname(lf)] = true
+		isMerge := func(i ssa.Instruction) bool {
+			cl, ok := i.(*ssa.Call)
+			if !ok {
+				return false
+			}
+			n := calleeFull(&cl.Call)
+			return strings.HasSuffix(n, "viper.Viper).MergeInConfig") || strings.HasSuffix(n, "viper.Viper).ReadInConfig") || strings.HasSuffix(n, "viper.Viper).MergeConfig") || strings.HasSuffix(n, "viper.Viper).ReadConfig")
+		}
+		esc := pathPruned(lf, nil, isMerge, func(i ssa.Instruction) bool {
+			r, ok := i.(*ssa.Return)
+			return ok && !isErrorExit(lf, r)
+		}, nil)
+		c.check(esc == nil, "U19", fname(lf)+"/file-read-on-every-load", c.pos(lf.Pos()), "every successful return follows MergeInConfig",
+			"the return at "+iposOrEmpty(c, esc)+" reports success without the file having been read and merged: where the session already designates this file (the usual initConfig of a cobra command does SetConfigFile itself) it is never read, and on a second load — after the defaults were merged again over the session — every field the file sets gets its default; no error is returned")
+	}
+
 	// ---- U2 -----------------------------------------------------------------
 	need := func(key string, a, b *ssa.Call, an, bn, why string) {
 		switch {
